@@ -19,7 +19,7 @@ import (
 
 // C14Event is one step of a C14 history.
 type C14Event struct {
-	Op  string `json:"op"`            // inv body time check mine minewin txstep
+	Op  string `json:"op"`            // inv body time check mine minewin txstep reconnect
 	Src int    `json:"src,omitempty"` // 0 trusted, 1..k untrusted
 	Txs []int  `json:"txs,omitempty"`
 	Ms  int    `json:"ms,omitempty"`
@@ -162,9 +162,39 @@ func c14Run(sc *C14Scenario) (v *nodeViolation, flags map[string]bool) {
 		}
 		return nil
 	}
+	doTxStep := func() (bool, *nodeViolation) {
+		select {
+		case td := <-sn.node.unconfTxChannel.Channel:
+			sn.step++
+			var err error
+			guard("processUnconfirmedTx", func() { err = sn.node.processUnconfirmedTx(sn.ctx, td) })
+			if err != nil {
+				return false, &nodeViolation{"C14/tx-thread-exit", err.Error()}
+			}
+			if i, ok := idOf[*td.Msg.TxHash()]; ok {
+				sn.trace("TXSTEP tx%d processed; body in mempool now %v", i, sn.node.memPool.TransactionExists(td.Msg.TxHash()))
+			}
+			if i, ok := idOf[*td.Msg.TxHash()]; ok && confirmed[i] {
+				// a late body of a confirmed tx is dropped and the txid forgotten again
+				delete(hasReq, i)
+				delete(queued, i)
+			} else if ok {
+				arrived[i] = true
+				delete(queued, i)
+				delete(tracked[0], i) // the trusted tracker forgets a processed tx at once
+				flags["delivery"] = true
+			}
+			return true, nil
+		default:
+			return false, nil
+		}
+	}
 	tipName, tip := 1, a1
 	for n, ev := range sc.Events {
 		eventStart = clockHi()
+		if ev.Src > 0 && ev.Src <= len(uns) && uns[ev.Src-1].closed {
+			continue // this connection ended with a reconnect of the node
+		}
 		where := fmt.Sprintf("event %d %s(src %d, txs %v)", n, ev.Op, ev.Src, ev.Txs)
 		if ev.Src > len(uns) {
 			continue
@@ -235,29 +265,36 @@ func c14Run(sc *C14Scenario) (v *nodeViolation, flags map[string]bool) {
 				return v, flags
 			}
 		case "txstep":
-			select {
-			case td := <-sn.node.unconfTxChannel.Channel:
-				sn.step++
-				var err error
-				guard("processUnconfirmedTx", func() { err = sn.node.processUnconfirmedTx(sn.ctx, td) })
-				if err != nil {
-					return &nodeViolation{"C14/tx-thread-exit", err.Error()}, flags
-				}
-				if i, ok := idOf[*td.Msg.TxHash()]; ok {
-					sn.trace("TXSTEP tx%d processed; body in mempool now %v", i, sn.node.memPool.TransactionExists(td.Msg.TxHash()))
-				}
-				if i, ok := idOf[*td.Msg.TxHash()]; ok && confirmed[i] {
-					// a late body of a confirmed tx is dropped and the txid forgotten again
-					delete(hasReq, i)
-					delete(queued, i)
-				} else if ok {
-					arrived[i] = true
-					delete(queued, i)
-					delete(tracked[0], i) // the trusted tracker forgets a processed tx at once
-					flags["delivery"] = true
-				}
-			default:
+			if _, v := doTxStep(); v != nil {
+				return v, flags
 			}
+			if v := judgeFresh(collect(), where); v != nil {
+				return v, flags
+			}
+		case "reconnect":
+			// the trusted connection is lost and re-established by the same process (Run's restart
+			// loop): the transaction thread drains its queue, the untrusted connections are closed, the
+			// mempool, the request times and the trusted connection's tracker persist
+			for {
+				more, v := doTxStep()
+				if v != nil {
+					return v, flags
+				}
+				if !more {
+					break
+				}
+			}
+			for k, u := range uns {
+				u.closed = true
+				tracked[k+1] = map[int]bool{}
+			}
+			sn.reconnect()
+			insync := func() bool { return sn.node.state.IsReady() && sn.peer.sendHeaders }
+			if ok, _ := sn.fairCompletion(func() bool { c, _ := sn.converged(); return c && insync() }, 60); !ok {
+				flags["no-resync-after-reconnect"] = true
+				return nil, flags // no verdict
+			}
+			flags["reconnect"] = true
 			if v := judgeFresh(collect(), where); v != nil {
 				return v, flags
 			}
@@ -464,9 +501,13 @@ func genC14(t *rapid.T) *C14Scenario {
 		return sc
 	}
 	sc := &C14Scenario{NTx: rapid.IntRange(1, 5).Draw(t, "ntx"), Untrusted: rapid.IntRange(1, 3).Draw(t, "untrusted")}
+	reconnects := rapid.IntRange(0, 3).Draw(t, "reconnects") == 0
 	n := rapid.IntRange(3, 40).Draw(t, "nev")
 	for i := 0; i < n; i++ {
 		ev := C14Event{Op: rapid.SampledFrom([]string{"inv", "inv", "inv", "inv", "body", "txstep", "txstep", "time", "time", "check", "check", "check", "mine"}).Draw(t, "op")}
+		if reconnects && rapid.IntRange(0, 11).Draw(t, "reconnect") == 0 {
+			ev.Op = "reconnect"
+		}
 		switch ev.Op {
 		case "inv":
 			ev.Src = rapid.IntRange(0, sc.Untrusted).Draw(t, "src")
@@ -504,7 +545,7 @@ func c14Nontrivial(f map[string]bool) bool {
 	return f["announced-while-requested"] && (f["window-expiry"] || f["delivery"])
 }
 
-const c14Rule = "step-mode histories with the real trusted and untrusted inventory handlers and trackers (real UntrustedNode objects, 1..3 of them) over one mempool: inv of overlapping txid sets on any connection (one case in fifteen announces 90-260 txids on two connections, more than one re-request message holds), bodies from any connection, logical time steps (0.5 s, 2.9 s, 3.1 s, 7 s via the time-shift hook), activity/check on a connection, blocks confirming txid sets, and blocks whose processing goroutine is held at a drawn storage/fetcher operation while connections get activity; oracle over the per-connection getdata(tx) log with logical time stamps: first request issued, no second request inside the 3 s window, none after the body was processed or confirmed, re-request on the next activity of a connection that announced it; non-trivial = at least two connections announce one txid and a window expiry or a delivery occurs; distinct by scenario hash"
+const c14Rule = "step-mode histories with the real trusted and untrusted inventory handlers and trackers (real UntrustedNode objects, 1..3 of them) over one mempool: inv of overlapping txid sets on any connection (one case in fifteen announces 90-260 txids on two connections, more than one re-request message holds), bodies from any connection, logical time steps (0.5 s, 2.9 s, 3.1 s, 7 s via the time-shift hook), activity/check on a connection, blocks confirming txid sets, reconnects of the trusted connection by the same process (a quarter of the histories; untrusted connections end, mempool, request times and the trusted tracker persist), and blocks whose processing goroutine is held at a drawn storage/fetcher operation while connections get activity; oracle over the per-connection getdata(tx) log with logical time stamps: first request issued, no second request inside the 3 s window, none after the body was processed or confirmed, re-request on the next activity of a connection that announced it; non-trivial = at least two connections announce one txid and a window expiry or a delivery occurs; distinct by scenario hash"
 
 func TestC14Requests(t *testing.T) {
 	rep := verifkit.NewReport("C14", "TestC14Requests", c14Rule)
